@@ -239,3 +239,85 @@ def ma_area(k) -> Any:
         if type(a).__name__ == "MultipleAssignmentArea":
             return a
     raise KeyError
+
+
+# --------------------------------------------------------------------------------------------------
+# operation alphabet shared by the explicit-state checks
+# --------------------------------------------------------------------------------------------------
+
+
+def read_sym(s) -> tuple:
+    return (s.str_value, s.visibility, tuple(s.assignable), s.config_string)
+
+
+def apply_op(inst: "Inst", op: tuple, snapshots: Optional[List[str]] = None) -> Any:
+    """Executes one operation through the entry points the tools use. Returns what the op observed (reads) or None."""
+    k = inst.k
+    kind = op[0]
+    if kind == "set":
+        return k.syms[op[1]].set_value(op[2])
+    if kind == "unset":
+        k.syms[op[1]].unset_value()
+        return None
+    if kind == "reset":
+        core()._restore_default(k.syms[op[1]].nodes[0])
+        return None
+    if kind == "resetc":
+        core()._restore_default(k.unique_choices[op[1]].nodes[0])
+        return None
+    if kind == "load":  # ("load", text, replace)
+        inst.load_text(op[1], replace=op[2])
+        return None
+    if kind == "snap":  # write current configuration, remember the text
+        t = inst.config_text()
+        if snapshots is not None:
+            snapshots.append(t)
+        return t
+    if kind == "loadsnap":  # ("loadsnap", index, replace)
+        inst.load_text(snapshots[op[1]], replace=op[2])
+        return None
+    if kind == "read":
+        return read_sym(k.syms[op[1]])
+    if kind == "readc":
+        c = k.unique_choices[op[1]]
+        sel = c.selection
+        return (sel.name if sel is not None else None, c.visibility)
+    if kind == "readall":
+        return inst.obs()
+    raise ValueError(op)
+
+
+class OpRaised(Exception):
+    """An operation of the explored history raised inside the implementation."""
+
+    def __init__(self, index: int, op: tuple, exc: BaseException):
+        import traceback
+
+        tb = traceback.extract_tb(exc.__traceback__)
+        site = "?"
+        for fr in reversed(tb):
+            if "/mck/" not in fr.filename:
+                site = f"{os.path.basename(fr.filename)}:{fr.name}"
+                break
+        super().__init__(f"op #{index} {op!r} raised {type(exc).__name__}: {exc} at {site}")
+        self.index, self.op, self.exc_type, self.site = index, op, type(exc).__name__, site
+
+
+def replay_ops(files, ops, **kw) -> "Inst":
+    inst = Inst(files, **kw)
+    snaps: List[str] = []
+    inst.snapshots = snaps
+    for i, op in enumerate(ops):
+        try:
+            apply_op(inst, op, snaps)
+        except Exception as e:  # noqa: BLE001 -- any exception out of a public entry point is an observation
+            raise OpRaised(i, op, e) from e
+    return inst
+
+
+def cache_bits(inst: "Inst") -> tuple:
+    k = inst.k
+    return tuple(
+        (s._cached_str_val is not None, s._cached_bool_val is not None, s._cached_vis is not None, s._cached_assignable is not None)
+        for s in k.unique_defined_syms
+    ) + tuple((c._cached_vis is not None, c._cached_selection is not core()._NO_CACHED_SELECTION) for c in k.unique_choices)
